@@ -396,6 +396,8 @@ def run_editor(exe, args, stdin_bytes, files=None, readback=(), timeout=10, env=
     The process gets its own session (term_suspend's kill(0, SIGSTOP) cannot stop the harness)."""
     d = case_dir()
     for name, data in (files or {}).items():
+        if '/' in name:
+            os.makedirs(os.path.dirname(os.path.join(d, name)), exist_ok=True)      # a file below a sub-directory of the case directory
         with open(os.path.join(d, name), 'wb') as f:
             f.write(data)
     e = {'PATH': '/usr/bin:/bin', 'HOME': d, 'EXINIT': '', 'TERM': 'xterm', 'LINES': '24', 'COLUMNS': '80',
